@@ -10,7 +10,8 @@ EXTRACT = ['limiter']
 LEAN_TARGETS = ['DeepModel.Props.C04']
 AUDIT = 'DeepModel/Audit/C04.lean'
 DRIVER = 'DeepModel/Driver/C04.lean'
-BUDGET = {'quick': 500, 'thorough': 6000}
+BUDGET = {'quick': 500, 'thorough': 40000}
+TIME = {'quick': 100, 'thorough': 800}
 RULE = ('histories: action kind (snapshot/log/metric/span) x fire_count text x fire_period text x window x up to 40 '
         'hits with scripted clock (boundary spacings: exactly period, +-1 ns, backwards steps) and per-hit condition '
         '(true/false/raising), driven through the real TriggerHandler.trace_call; schedules: all 20 interleavings of '
@@ -117,6 +118,18 @@ def gen(rng, tier):
             yield {'kind': 'schedule', 'cfg': {'fire_count': rng.choice(['1', '2', '-1']),
                                                'fire_period': rng.choice(['0', '1000'])},
                    'tss': [10 ** 9, 10 ** 9 + rng.choice([1, 2 * 10 ** 9])], 'sched': list(s)}
+        elif tier == 'thorough' and k % 12 == 6:
+            n = rng.choice([3, 4])
+            if rng.random() < 0.4:          # serial blocks in a random thread order
+                order = list(range(n))
+                rng.shuffle(order)
+                sched = [i for i in order for _ in range(3)]
+            else:
+                sched = [i for i in range(n) for _ in range(3)]
+                rng.shuffle(sched)
+            yield {'kind': 'schedule', 'cfg': {'fire_count': rng.choice(['1', '2', '3', '-1']),
+                                               'fire_period': rng.choice(['0', '1000'])},
+                   'tss': [10 ** 9 + rng.choice([j, j * 2 * 10 ** 9]) for j in range(n)], 'sched': sched}
         else:
             yield gen_history(rng)
 
@@ -298,10 +311,10 @@ def run_impl(case):
 # --------------------------------------------------------------------------------------- judging
 def overlapping(case):
     """some thread performs its check while another is between its check and its record."""
-    pos = {0: 0, 1: 0}
+    n = len(case['tss'])
+    pos = {i: 0 for i in range(n)}
     for i in case['sched']:
-        other = 1 - i
-        if pos[i] == 0 and 0 < pos[other] < 3:
+        if pos[i] == 0 and any(0 < pos[o] < 3 for o in range(n) if o != i):
             return True
         pos[i] += 1
     return False
@@ -319,7 +332,8 @@ def oracle(case, obs):
         if cnt != -1 and obs['collected'] > max(cnt, 0):
             v.append(f'{obs["collected"]} collections with fire_count={cnt}')
         tss = case['tss']
-        if abs(tss[1] - tss[0]) < per * 1_000_000 and obs['collected'] > 1:
+        spread = max(tss) - min(tss)
+        if spread < per * 1_000_000 and obs['collected'] > 1:
             v.append(f'{obs["collected"]} collections less than fire_period={per} ms apart')
         if not overlapping(case):
             # serial: exactly the sequential reference, in the order the threads ran
